@@ -218,7 +218,10 @@ def oracleLine (ws : List String) : String :=
       | some j => toString j.fut
   | "k4.admission" :: th :: running :: rest =>
       let r := K4.admission (rest.map nat!) (nat! running) (if th = "None" then none else some (nat! th))
-      s!"[{String.intercalate " " (r.1.map toString)}] [{String.intercalate " " (r.2.1.map toString)}] {r.2.2.1} {r.2.2.2}"
+      let nf := K4.admissionNotifies (rest.map nat!) (nat! running) (if th = "None" then none else some (nat! th))
+      s!"[{String.intercalate " " (r.1.map toString)}] [{String.intercalate " " (r.2.1.map toString)}] {r.2.2.1} {r.2.2.2} {if nf then 1 else 0}"
+  | ["k4.blockwait", tv, q, sh] =>
+      if K4.blockWait (if tv = "None" then none else some (nat! tv)) (nat! q) (sh = "1") then "1" else "0"
   | "k3.partition" :: now :: rest =>
       let r := K3.partitionJobs (parseJobs rest) (nat! now)
       s!"[{showJobs r.1}] [{showJobs r.2}]"
